@@ -312,3 +312,17 @@ Example C15_concrete :
   | _ => False
   end.
 Proof. vm_compute. repeat split. Qed.
+
+(* ---------------- the list of scale ranges (Model/ScaleLists.v) ---------------- *)
+From Verif Require ScaleLists ScaleListsP.
+(* the configuration keeps the ranges as given: the i-th stored range is the i-th listed one, repeats included ... *)
+Theorem C15_scale_list_kept : forall (l : list ScaleLists.range) (i : nat) (d : ScaleLists.range),
+  nth i (ScaleLists.keep l) d = nth i l d /\ length (ScaleLists.keep l) = length l.
+Proof. exact ScaleListsP.keep_spec. Qed.
+Print Assumptions C15_scale_list_kept.
+(* ... a sorted list without repeats (np.unique) is another list unless the ranges were given ascending and once *)
+Theorem C15_scale_list_unique_sorted_refuted :
+  (exists l i d, length (ScaleLists.unique_sorted l) = length l /\ nth i (ScaleLists.unique_sorted l) d <> nth i l d) /\
+  (exists l, (length (ScaleLists.unique_sorted l) < length l)%nat).
+Proof. exact ScaleListsP.unique_sorted_refuted. Qed.
+Print Assumptions C15_scale_list_unique_sorted_refuted.
